@@ -1,6 +1,7 @@
 import DmrVerif.Driver.Loop
 import DmrVerif.Driver.Integrity
+import DmrVerif.Driver.TranslHytera
 
-/-! model driver for property C04 -/
+/-! model driver for property C04 (`t.hy.*`: the HRNP checksum translated from the source, `Gen/TranslHytera.lean`) -/
 
-def main : IO Unit := Dmr.Driver.runMain [Dmr.Driver.integrityOp, Dmr.Driver.crcOp]
+def main : IO Unit := Dmr.Driver.runMain [Dmr.Driver.integrityOp, Dmr.Driver.crcOp, Dmr.Driver.translHyteraOp]
